@@ -602,6 +602,8 @@ def module_globals(tree: ast.Module, stubs: Optional[Dict[str, Any]] = None) -> 
             continue
     out = dict(env)
     out.update(stubs or {})
+    # the interpreted module-level functions captured `env` by reference: they must see the stubs as well
+    env.update(stubs or {})
     return out
 
 
